@@ -215,7 +215,7 @@ def _worker(job):
     h = mod.HARNESSES[hname]
     from vlib.env import SymEnv
     st = core.new_stats()
-    out = dict(harness=hname, shape=shape, status="ok", stats=st)
+    out = dict(harness=hname, shape=shape, status="ok", stats=st, module=modname)
     t0 = time.time()
     budget = int(getattr(h, 'budget_s', 0) or int(os.environ.get("VERIF_SHAPE_BUDGET_S", "240")))
 
@@ -418,6 +418,15 @@ def fold(res, out):
         return
     desc = "%s %s: %s" % (hname, json.dumps(shape, sort_keys=True), out.get('detail', out.get('label')))
     if out['status'] == 'inconclusive':
+        if 'solver unknown' in str(out.get('detail', '')) and out.get('module'):
+            # the solver could neither discharge the obligation nor produce a model (typically a sat
+            # instance with thousands of nested UF applications).  Try to falsify the same harness
+            # concretely on the real library; a reproduced failure is reported, anything else stays
+            # inconclusive (never success).
+            n0 = len(res.violations) + len(res.known)
+            validate_concrete(res, out['module'], [(hname, shape)], n_random=3, as_violation=True)
+            if len(res.violations) + len(res.known) > n0:
+                return
         res.inconclusive.append(desc)
     elif out['status'] == 'error':
         res.harness_errors.append(desc)
@@ -450,7 +459,7 @@ def handle_violation(res, hname, shape, inputs, label, engine="pysym", extra=Non
         res.harness_errors.append("replay failed to run: %s %s: %s" % (hname, path, log[-600:]))
 
 
-def validate_concrete(res, modname, jobs, n_random=1):
+def validate_concrete(res, modname, jobs, n_random=1, as_violation=True):
     """Run each harness concretely on the real library with random inputs (model-vs-impl validation)."""
     env = dict(os.environ)
     env["PYTHONPATH"] = VERIF
